@@ -269,9 +269,17 @@ fn parse_offset(s: &str) -> Result<Duration, HifitimeError> {
     let mut minutes: i64 = 0;
     let mut seconds: i64 = 0;
 
-    match s.get(indexes.1 + colon..indexes.2 + colon) {
-        None => {
+    let minutes_start = indexes.1 + colon;
+    match s.get(minutes_start..indexes.2 + colon) {
+        None if minutes_start >= s.len() => {
             //Do nothing, we've reached the end of the useful data.
+        }
+        None => {
+            // There is more text but it does not hold a two-byte field here (e.g. a multi-byte character): this is not an offset.
+            return Err(HifitimeError::Parse {
+                source: ParsingError::InvalidTimezone,
+                details: "invalid minutes",
+            });
         }
         Some(subs) => {
             // Fetch the minutes
@@ -285,9 +293,16 @@ fn parse_offset(s: &str) -> Result<Duration, HifitimeError> {
                 }
             }
 
-            match s.get(indexes.2 + 2 * colon..) {
-                None => {
+            let seconds_start = indexes.2 + 2 * colon;
+            match s.get(seconds_start..) {
+                None if seconds_start >= s.len() => {
                     // Do nothing, there are no seconds in this offset
+                }
+                None => {
+                    return Err(HifitimeError::Parse {
+                        source: ParsingError::InvalidTimezone,
+                        details: "invalid seconds",
+                    });
                 }
                 Some(subs) => {
                     if !subs.is_empty() {
